@@ -31,6 +31,8 @@ static inline struct vs_astr *vs_astr_assign_ptr_n(struct vs_astr *s, const char
     s->size = n; g_app_src = p;
     return s;
 }
+static inline struct vs_astr vs_astr_from_cstr(const char *p) { struct vs_astr r; size_t n; __CPROVER_assume(n <= ASTR_MAX_SIZE); r.size = n; r.src = p; g_app_src = p; return r; }
+static inline struct vs_astr vs_astr_from_ptr_n(const char *p, size_t n) { struct vs_astr r; r.size = n; r.src = p; g_app_src = p; return r; }
 #define SB(d) ((d)->vs_base_StreamBuf)
 /* ghost: offset of the put area inside data_ */
 size_t g_poff;
@@ -56,7 +58,9 @@ STUBS.update({
     'eq_int_type': 'vs_traits_eq_int_type', 'not_eof': 'vs_traits_not_eof',
     # the other char_traits conversions (so that a rewrite of overflow() is decided, not a tool error)
     'to_char_type': {'expr': '((char)($0))'}, 'to_int_type': {'expr': '((int)(unsigned char)($0))'},
-    'std::string::assign/2': 'vs_astr_assign_ptr_n', 'ctor:std::string/0': {'expr': 'vs_astr_ctor_empty()'},
+    'std::string::assign/2': 'vs_astr_assign_ptr_n',
+    # std::string(const char *): the characters up to the first NUL -- how many is not known
+    'ctor:std::string/1': {'expr': 'vs_astr_from_cstr($0)'}, 'ctor:std::string/2': {'expr': 'vs_astr_from_ptr_n($0, $1)'}, 'ctor:std::string/0': {'expr': 'vs_astr_ctor_empty()'},
     'move': {'expr': '($0)'},
     # vector move construction / assignment: the storage changes hands, the source is left empty (libstdc++; the standard says valid but unspecified)
     'ctor:std::vector<char>/copy': 'vs_vec_move', 'operator=|std::vector<char>,std::vector<char>': {'expr': '(*vs_vec_move_assign(&($0), &($1)))'},
